@@ -369,7 +369,8 @@ class Ctx:
 
 ARITH_LEAN = os.path.join(LEAN, "Mtv", "Gen", "Arith.lean")
 ARITH_THEOREMS = {
-    "C10": ["Mtv.Arith.generateMessageId_is_genId", "Mtv.Arith.generateMessageId_after_2038_negative"],
+    "C10": ["Mtv.Arith.generateMessageId_is_genId", "Mtv.Arith.generateMessageId_after_2038_negative",
+            "Mtv.Arith.sendPacketMsgId_is_nextId", "Mtv.Arith.seqNoContent_odd", "Mtv.Arith.seqNo_of_even"],
     "C05": ["Mtv.Arith.encryptPaddedLen_is_padLen", "Mtv.Arith.encryptPaddedLen_aligned", "Mtv.Arith.tempNeedToAdd_is_tempPadLen"],
     "C08": ["Mtv.Arith.abridged_length_bytes"],
     "C04": ["Mtv.Arith.parityMod_is_mod4"],
@@ -388,8 +389,8 @@ def regen_arith(ctx):
         rc, out = run(["go", "build", "-o", exe, "./cmd/arithfacts"], cwd=HARNESS, env=go_env(ctx.repo), timeout=600)
         if rc == 0:
             rc, out = run([exe, "-repo", ctx.repo, "-lean", ARITH_LEAN], timeout=120)
-    ctx.obligation("arithfacts: integer arithmetic of GenerateMessageId, ige.Encrypt, EncryptMessageWithTempKeys, abridged "
-                   "WriteMsg, DeserializeEncrypted translated from %s (go/parser)" % ctx.repo, rc == 0, out[-600:])
+    ctx.obligation("arithfacts: integer arithmetic of GenerateMessageId, sendPacket (msg_id bump), serializePacket (seq_no), ige.Encrypt, "
+                   "EncryptMessageWithTempKeys, abridged WriteMsg, DeserializeEncrypted translated from %s (go/parser)" % ctx.repo, rc == 0, out[-600:])
     if rc != 0:
         try:
             os.remove(ARITH_LEAN)
